@@ -601,6 +601,7 @@ class Interface:
                 prelude.declare_fun('member_index', [t.INT, t.VAL], t.INT)
                 w = t.app('member_index', t.INT, sl, v)
                 st.assume(t.app('(_ is VStr)', t.BOOL, v))
+                st.assume(t.app('truthy', t.BOOL, v))          # a member name is a non-empty string
                 st.assume(t.and_(t.le(t.ZERO, w), t.lt(w, t.app('sl_len', t.INT, sl)), t.eq(t.app('sc_name', t.VAL, t.app('sl_at', t.INT, sl, w)), v)))
                 # being a member's name, it is none of the structural scope entries (same hypothesis as in sub_attr 'name')
                 for k in self.RESERVED:
